@@ -454,7 +454,7 @@ pub async fn run(args: &Args) {
     let mut out = Out::new(
         "C03",
         "c03",
-        "destinations (host bytes of lengths 0..70000 and classes plain/colon/space/CR/LF/NUL/control/non-UTF-8/multibyte/Unicode white space at the edges/IP-literal/bracketed x ports {0,1,79,80,255,256,65535}) carried in through every inbound codec (HTTP CONNECT, SOCKS5, SOCKS4a, SOCKS5-UDP header, RPFM attr) and out through every outbound encoder (CONNECT via h11c_connect, SOCKS5, SOCKS4, SOCKS5-UDP, RPFM) with full and partial writes; outgoing bytes parsed by strict reference parsers; 2-hop check through the real peer decoder. distinct = distinct (inbound, outbound, host class, length class, port)",
+        "destinations (host bytes of lengths 0..70000 and classes plain/colon/space/CR/LF/NUL/control/non-UTF-8/multibyte/Unicode white space at the edges/IP-literal/bracketed x ports {0,1,79,80,255,256,65535}) carried in through every inbound codec (HTTP CONNECT, SOCKS5, SOCKS4a, SOCKS5-UDP header, RPFM attr) and out through every outbound encoder (CONNECT via h11c_connect, SOCKS5, SOCKS4, SOCKS5-UDP, RPFM) with full and partial writes; outgoing bytes parsed by strict reference parsers; 2-hop check through the real peer decoder; address-typed SOCKS4 requests over the 0.0.0.0/8 corner and CONNECT authorities whose port is arbitrary text. distinct = distinct (inbound, outbound, host class, length class, port)",
     );
     let mut rng = Rng::new(args.seed);
     let n = args.n(8000, 300_000);
@@ -555,6 +555,54 @@ pub async fn run(args: &Args) {
                     Ok(d2) if same_dest(&d2, &d) => {}
                     other => out.violation(format!("outbound {}: IP destination not encoded faithfully", outc), serde_json::json!({"target": s, "parsed": format!("{:?}", other)})),
                 },
+            }
+        }
+    }
+    // ---- inbound forms the generator above cannot write: address-typed SOCKS4 requests and raw CONNECT authorities
+    // (a) plain SOCKS4 carries the destination as an IPv4 address; only 0.0.0.x (x != 0) announces a host name behind the user id.
+    //     Every other address - also the rest of 0.0.0.0/16 - is the destination itself, and what follows the user id is payload.
+    for ip in ["0.0.1.0", "0.0.1.5", "0.0.255.255", "0.1.0.0", "0.0.0.0", "1.2.3.4", "127.0.0.1", "255.255.255.255", "0.255.0.1", "1.0.0.0"] {
+        for port in [1u16, 80, 443, 65535] {
+            out.case();
+            out.nontrivial(&("socks4-address", ip, port));
+            let a: std::net::Ipv4Addr = ip.parse().unwrap();
+            let mut b = vec![4u8, 1];
+            b.extend_from_slice(&port.to_be_bytes());
+            b.extend_from_slice(&a.octets());
+            b.extend_from_slice(b"user\0evil.example\0payload");
+            match inbound_decode("socks4a", &b) {
+                In::Target(TargetAddress::SocketAddr(sa)) if sa.ip() == std::net::IpAddr::V4(a) && sa.port() == port => {}
+                In::Refused => out.count("refused_at_inbound", 1),
+                In::Panic(p) => out.violation(format!("inbound socks4: {}", p.sig()), serde_json::json!({"address": ip, "port": port})),
+                In::Target(t) => out.violation(
+                    "inbound socks4: destination seen by the rules differs from the one the client sent [IPv4 address field]".into(),
+                    serde_json::json!({"sent": format!("{}:{}", ip, port), "decoded": format!("{:?}", t)}),
+                ),
+            }
+        }
+    }
+    // (b) the port of a CONNECT authority is text: whatever is accepted must be that number, everything else is refused
+    for host in ["example.com", "10.1.2.3", "[2001:db8::1]", "xn--bcher-kva.example"] {
+        for port in ["0", "80", "65535", "65536", "65616", "65979", "99999", "100000", "4294967376", "080", "00080", "+80", "-80", "-0", "0x50", "80 ", " 80", "8 0", "", "８０", "80\u{0660}", "1e2", "80.0", "443/"] {
+            out.case();
+            out.nontrivial(&("connect-port-text", host, port));
+            let b = format!("CONNECT {}:{} HTTP/1.1\r\n\r\n", host, port).into_bytes();
+            // the number the text denotes, if it is one a port field can hold (an optional sign and leading zeros do not change it)
+            let digits = port.strip_prefix('+').unwrap_or(port);
+            let denoted: Option<u16> = if !digits.is_empty() && digits.bytes().all(|c| c.is_ascii_digit()) { digits.parse::<u32>().ok().and_then(|v| u16::try_from(v).ok()) } else { None };
+            match inbound_decode("http-connect", &b) {
+                In::Refused => out.count("refused_at_inbound", 1),
+                In::Panic(p) => out.violation(format!("inbound http-connect: {}", p.sig()), serde_json::json!({"authority": format!("{}:{}", host, port)})),
+                In::Target(t) => {
+                    let d1 = dest_of_target(&t);
+                    let want_host = host.trim_start_matches('[').trim_end_matches(']');
+                    if denoted != Some(d1.port) || d1.host != want_host.as_bytes() {
+                        out.violation(
+                            "inbound http-connect: destination seen by the rules differs from the one the client sent [port text]".into(),
+                            serde_json::json!({"authority": format!("{}:{}", host, port), "decoded": format!("{:?}", t)}),
+                        );
+                    }
+                }
             }
         }
     }
